@@ -57,6 +57,8 @@ pub struct Opts {
     pub secs: u64,
     pub sub: String,
     pub replay_index: u64,
+    /// C23: keep every reference returned by a tracked function and re-read it before the next write
+    pub retain: bool,
 }
 
 fn parse(args: &[String]) -> Opts {
@@ -73,6 +75,7 @@ fn parse(args: &[String]) -> Opts {
         secs: 0,
         sub: String::new(),
         replay_index: 0,
+        retain: false,
     };
     let mut i = 0;
     while i < args.len() {
@@ -131,6 +134,45 @@ fn run_case(o: &Opts, case_seed: u64, case_index: u64) -> CaseReport {
     #[cfg(feature = "persist")]
     if o.sub.starts_with("persist") {
         return crate::pworld::persist_case(o, case_seed);
+    }
+    if o.sub.starts_with("mem") {
+        // C23: histories of several families with reference retention, meant to run natively and
+        // under Miri / AddressSanitizer / valgrind
+        let fams = ["C01", "C05", "C06", "C07", "C12", "C12", "C13", "C10"];
+        let fam = fams[(case_seed % fams.len() as u64) as usize];
+        let o2 = Opts {
+            prop: fam.to_string(),
+            tier: o.tier.clone(),
+            seed: o.seed,
+            shard: o.shard,
+            nshards: o.nshards,
+            cases: o.cases,
+            out: o.out.clone(),
+            replay: o.replay,
+            verbose: o.verbose,
+            secs: o.secs,
+            sub: o.sub.clone(),
+            replay_index: o.replay_index,
+            retain: true,
+        };
+        let mut rep = match fam {
+            "C12" | "C13" => crate::camp_single::cyclic_case(&o2, case_seed),
+            _ => crate::camp_single::acyclic_case(&o2, case_seed),
+        };
+        // only memory clauses are judged here: value mismatches belong to the other properties
+        let keep: Vec<String> = rep
+            .violations
+            .iter()
+            .filter(|m| m.contains("a reference returned earlier"))
+            .cloned()
+            .collect();
+        rep.counts.add("value_mismatches_not_judged_here", (rep.violations.len() - keep.len()) as u64);
+        rep.violations = keep;
+        rep.inconclusive.clear();
+        rep.nontrivial = rep.counts.get("retained_refs_checked") > 0;
+        rep.counts.inc(&format!("family:{fam}"));
+        crate::sink::clear();
+        return rep;
     }
     if o.sub.starts_with("fault") {
         return crate::camp_fault::fault_case(o, case_seed);
